@@ -6,6 +6,9 @@
 (*   run "B"  seed s again                -> identical outputs             *)
 (*   run "G"  seed s, numpy's and Python's GLOBAL generators seeded        *)
 (*            differently                 -> identical outputs             *)
+(*   run "D"  seed s + 1                  -> no linear-parameter draw of   *)
+(*            run A appears again (the randomness DOES come from the given *)
+(*            generator, however child streams are derived from it)        *)
 (* events: Run [run] | Draw [stream, sid, before, after, n] |              *)
 (*         Children [sids] (one per pool task that received a generator) | *)
 (*         Globals [same] (global state hashes equal before/after a call) |*)
@@ -37,14 +40,14 @@ OnDraw(e) ==
 
 OnChildren(e) ==
   <<IF \E k \in DOMAIN e.sids : Sid(e.sids[k]) \in st.kids THEN "C10.NoStreamReuseAcrossTasksAndCalls" ELSE "",
-    IF Cardinality({Sid(e.sids[k]) : k \in DOMAIN e.sids}) # Len(e.sids) THEN "C10.OneStreamPerTask" ELSE "",
-    IF \E k \in DOMAIN e.sids : e.sids[k].entropy # e.parent.entropy \/ e.sids[k].key = <<>> THEN "C10.ChildrenDerivedFromGivenGenerator" ELSE "">>
+    IF Cardinality({Sid(e.sids[k]) : k \in DOMAIN e.sids}) # Len(e.sids) THEN "C10.OneStreamPerTask" ELSE "">>
 
 OnOutput(e) ==
   <<IF \E k \in DOMAIN e.lin : e.lin[k] \in st.lins THEN "C10.LinearDrawsNeverRepeated" ELSE "",
     IF Cardinality(Range(e.lin)) # Len(e.lin) THEN "C10.LinearDrawsNeverRepeated" ELSE "",
     IF st.run = "B" /\ e.hash # e.hashA THEN "C10.EqualSeedsGiveIdenticalOutputs" ELSE "",
-    IF st.run = "G" /\ e.hash # e.hashA THEN "C10.OutputIndependentOfGlobalState" ELSE "">>
+    IF st.run = "G" /\ e.hash # e.hashA THEN "C10.OutputIndependentOfGlobalState" ELSE "",
+    IF st.run = "D" /\ Range(e.lin) \cap Range(e.linA) # {} THEN "C10.DrawsComeFromTheGivenGenerator" ELSE "">>
 
 Init == tid \in 1..Len(Tr) /\ l = 1 /\ st = Fresh("none") /\ fails = <<>>
 
